@@ -59,8 +59,10 @@ FixedCleanerFn(max, target, size, offs) ==
 
 Clamp(shift, size) == IF shift > size THEN size ELSE IF shift <= 0 THEN 0 ELSE shift
 
+\* kind "const": a custom cleaner that always answers cl.max (whatever the size and the offsets)
 CleanerFn(cl, size, offs) ==
   IF cl.kind = "fixed" THEN FixedCleanerFn(cl.max, cl.target, size, offs)
+  ELSE IF cl.kind = "const" THEN cl.max
   ELSE DefaultCleanerFn(size, offs)
 
 RelOffsets == [c \in reg |-> committed[c] - base]
